@@ -185,7 +185,8 @@ namespace OP2Utility::Archive
 
 		// Seek to beginning of first internal chunk (provided it exists)
 		// Note: this seeks past the initial format tag (such as RIFF and WAVE)
-		uint32_t currentPosition = sizeof(RiffHeader);
+		// Note: The position must be wider than the 32 bit chunk length, or a huge chunk length wraps it around (possibly back onto the same chunk header, never terminating)
+		uint64_t currentPosition = sizeof(RiffHeader);
 		seekableStreamReader.Seek(currentPosition);
 
 		ChunkHeader header;
@@ -199,7 +200,7 @@ namespace OP2Utility::Archive
 			}
 
 			// If not the right header, skip to next header
-			currentPosition += header.length + sizeof(ChunkHeader);
+			currentPosition += static_cast<uint64_t>(header.length) + sizeof(ChunkHeader);
 			seekableStreamReader.Seek(currentPosition);
 		} while (currentPosition < fileSize);
 
